@@ -1355,12 +1355,12 @@ class ThirdCoreHexToFullCoreChanger(GeometryChanger):
                 )
 
                 if not self.listOfVolIntegratedParamsToScale:
-                    # populate the list with all parameters that are VOLUME_INTEGRATED
-                    (
-                        self.listOfVolIntegratedParamsToScale,
-                        _,
-                    ) = _generateListOfParamsToScale(
-                        self._sourceReactor.core, paramsToScaleSubset=[]
+                    # populate the list with all parameters that are VOLUME_INTEGRATED, whether or
+                    # not they have been assigned since the last geometry transformation
+                    self.listOfVolIntegratedParamsToScale = (
+                        a[0]
+                        .p.paramDefs.atLocation(ParamLocation.VOLUME_INTEGRATED)
+                        .names
                     )
 
                 for b in a:
